@@ -50,7 +50,7 @@ Definition mkt12 (k : N) (s : string) (c : nat) : rtok :=
   {| ty := k; tstr := s; sline := 1; scol := c; eline := 1; ecol := c + 1; tline := ""; tspace := false |}.
 Definition toks12 : list rtok := [mkt12 1 "a" 0; mkt12 1 "b" 2; mkt12 4 "" 3; mkt12 0 "" 4].
 Definition alt12 (g : bool) (conjs : list conj) (act : string) (names : list string) : ialt :=
-  {| a_has_cut := false; a_guard := g; a_conjs := conjs; a_locations := false; a_action := act; a_names := names; a_explicit := false |}.
+  {| a_has_cut := false; a_guard := g; a_conjs := conjs; a_locations := false; a_action := act; a_names := names; a_explicit := false; a_unreachable := false |}.
 Definition cj12 (x : string) (c : call) : conj := {| cj_var := Some x; cj_call := c; cj_notnone := false |}.
 Definition meth12 (n : string) (alts : list ialt) : meth :=
   {| m_name := n; m_deco := DMemo; m_type := "Any"; m_comment := ""; m_nullable := false; m_without_invalid := false;
